@@ -14,7 +14,7 @@ git reset -q
 if ! go build ./... >/tmp/try_seed.build 2>&1; then git checkout -- .; echo "NOBUILD $(basename $D)"; exit 4; fi
 cd /verif
 OUT=/tmp/try_seed.$(basename $D).$P.out
-timeout 3000 bin/vcheck $P --tier $T > $OUT 2>&1
+VERIF_NO_EVIDENCE=1 timeout 3000 bin/vcheck $P --tier $T > $OUT 2>&1
 RC=$?
 cd /repo && git checkout -- . && git clean -fdq -e cmd/arcaflow-codegen/codegen
 if grep -q "^VIOLATION property=$P" $OUT; then echo "DETECTED $(basename $D) by $P ($T): $(grep -A1 '^VIOLATION' $OUT | grep 'key=' | head -3 | tr '\n' ' ' | cut -c1-300)"; else echo "MISSED $(basename $D) by $P ($T) rc=$RC: $(tail -1 $OUT | cut -c1-200)"; fi
